@@ -1,6 +1,6 @@
 (* C26 — the oracle accepts the model's own observation (range part): for every table contents and every range
    case the model's range observation satisfies range_ok.  (The query part of the oracle is not provable as stated:
-   merge_join_sm_left_refuted and count_fast_path_keyless_refuted are model behaviours the oracle rejects.) *)
+   merge_join_sm_left_refuted is a model behaviour the oracle rejects.) *)
 From Coq Require Import ZArith NArith List Bool Sorted Lia.
 From Dolt Require Import C26.Model C26.Spec C26.Proofs C26.Corr.
 Import ListNotations.
